@@ -52,7 +52,7 @@ func edgeLess(a, b edge) bool {
 type presT struct {
 	Promise bool // hand the result over through apifu.Go
 	Nil     bool // an empty result is the untyped nil
-	Err     int  // 0: no error; 1: the call fails with the error "getter-error-<call index>"; 2: a typed nil error value
+	Err     int  // 0: no error; 1: the call fails with the error "getter-error-<call index>"; 2: a typed nil error value; 3: no error, but a value that is neither nil nor a slice
 	Partial bool // a failing call returns the first half of its edges beside the error (otherwise nil)
 	Delay   int  // a promise resolves after Delay x 300 microseconds (orders the resolutions)
 }
@@ -61,6 +61,7 @@ const (
 	errNone     = 0
 	errReal     = 1
 	errTypedNil = 2
+	errBadValue = 3
 )
 
 // an error type whose nil pointer is a non-nil error interface value
@@ -177,6 +178,8 @@ func newAPI(st *workerState) *apifu.API {
 				}
 			case errTypedNil:
 				gerr = (*typedErr)(nil)
+			case errBadValue:
+				ret = nil
 			}
 			st.returns = append(st.returns, append([]edge{}, ret...))
 			st.raised = append(st.raised, p.Err)
@@ -193,6 +196,18 @@ func newAPI(st *workerState) *apifu.API {
 			}
 			if p.Err == errReal && !p.Partial {
 				res = nil
+			}
+			if p.Err == errBadValue {
+				// a string, a map, or (Partial) a promise - synchronously that is a promise
+				// resolving to a promise, through a promise one more level
+				switch {
+				case p.Partial && p.Promise:
+					res = apifu.Go(ctx.Context, func() (interface{}, error) { return []edge{}, nil })
+				case p.Nil:
+					res = map[string]int{"a": 1}
+				default:
+					res = "xy"
+				}
 			}
 			if p.Promise {
 				delay := time.Duration(p.Delay) * 300 * time.Microsecond
@@ -816,8 +831,12 @@ func withErrors(r *rng.R, ps []presT) []presT {
 			if r.Bool() {
 				out[i].Err = errTypedNil
 			}
+		case 5: // values that are neither nil nor a slice (a string, a map, a promise resolving to a promise)
+			if r.Bool() {
+				out[i].Err = errBadValue
+			}
 		default: // anything
-			out[i].Err = rng.Pick(r, []int{errNone, errNone, errReal, errReal, errTypedNil})
+			out[i].Err = rng.Pick(r, []int{errNone, errNone, errReal, errReal, errTypedNil, errBadValue})
 		}
 	}
 	if mode == 0 {
@@ -1177,6 +1196,44 @@ func main() {
 						return e.single(a, ps)
 					})
 				}
+			}
+		}
+		// G1b: the same request, every combination of {sync, promise} x {fine, error, non-slice value}
+		// per call (the combinations without a non-slice value are in G1)
+		{
+			base := argSpec{After: curOf(100, "a"), Before: curOf(300, "a"), Info: true}
+			kinds := []int{errNone, errReal, errBadValue}
+			for code := 0; code < 6*6*6; code++ {
+				c := code
+				hasBad := false
+				for i := 0; i < 3; i++ {
+					if kinds[c/2%3] == errBadValue {
+						hasBad = true
+					}
+					c /= 6
+				}
+				if !hasBad {
+					continue
+				}
+				code := code
+				h.Case(func(r *rng.R) sexp.Node {
+					ps := make([]presT, 3)
+					c := code
+					for i := range ps {
+						ps[i] = presT{Promise: c%2 == 1, Err: kinds[c/2%3], Nil: r.Bool(), Partial: r.Bool(), Delay: r.Intn(4)}
+						c /= 6
+					}
+					a := base
+					a.Total, a.TotalFirst = r.Bool(), r.Bool()
+					if r.Bool() {
+						a.First = intp(rng.Pick(r, []int{0, 1, 10}))
+					} else {
+						a.Last = intp(rng.Pick(r, []int{0, 1, 10}))
+					}
+					e := &env{run: run, edges: shuffled(r, d0), getter: r.Intn(3), typedNil: r.Bool(),
+						tcErr: r.Chance(1, 4), tcAsync: r.Bool(), zone: rng.Pick(r, zones)}
+					return e.single(a, ps)
+				})
 			}
 		}
 		// G2: the argument grid (fewer values) with random failures, hand-overs and resolution orders
